@@ -4,6 +4,7 @@ import Hfsm.Drive.Mach
 import Hfsm.Drive.C18
 import Hfsm.Drive.C19
 import Hfsm.Drive.C07
+import Hfsm.Drive.C17
 open Hfsm.Drive
 
 def replayers : List (String × Replayer) :=
@@ -11,7 +12,8 @@ def replayers : List (String × Replayer) :=
     ("mach", Hfsm.Drive.MachReplay.replayer),
     ("c18", Hfsm.Drive.C18.replayer),
     ("c19", Hfsm.Drive.C19.replayer),
-    ("c07", Hfsm.Drive.C07.replayer) ]
+    ("c07", Hfsm.Drive.C07.replayer),
+    ("c17", Hfsm.Drive.C17.replayer) ]
 
 partial def loop (h : IO.FS.Stream) (r : Replayer) (st : r.State) (n : Nat) : IO UInt32 := do
   let line ← h.getLine
